@@ -9,7 +9,7 @@ import dbmodel as M
 import iotie
 import pyspec
 
-KINDS = ["insert", "insert_multiple", "remove_some", "update_some", "drop", "remove_all", "remove_all_match", "handle_update", "update_nochange"]
+KINDS = ["insert", "insert_multiple", "remove_some", "update_some", "drop", "remove_all", "remove_all_match", "handle_update", "update_nochange", "update_shrink"]
 
 
 def battery(g):
